@@ -74,11 +74,16 @@ pub struct Ctx {
     pub names: BTreeMap<String, Address>,
     nonce: i64,
     ev_seen: u32,
+    /// ledgers that close before every submitted call (0 = the binder controls the sequence itself).
+    /// On chain every transaction lands in a later ledger; temporary entries live 16 ledgers at least, so
+    /// state that was (wrongly) put into temporary storage is gone a few calls later.  Capped well below the
+    /// 4096-ledger minimum lifetime of persistent and instance entries of the test host.
+    pub ledger_step: u32,
 }
 
 impl Ctx {
     pub fn new() -> Ctx {
-        Ctx { env: new_env(), names: BTreeMap::new(), nonce: 1000, ev_seen: 0 }
+        Ctx { env: new_env(), names: BTreeMap::new(), nonce: 1000, ev_seen: 0, ledger_step: 0 }
     }
 
     /// Address of a named principal (plain generated address unless registered otherwise).
@@ -148,6 +153,12 @@ impl Ctx {
         func: &str,
         args: SVec<Val>,
     ) -> Result<Val, String> {
+        if self.ledger_step > 0 {
+            let cur = self.env.ledger().sequence();
+            if cur + self.ledger_step <= 3500 {
+                self.env.ledger().set_sequence_number(cur + self.ledger_step);
+            }
+        }
         self.install_auths(auths);
         self.call(contract, func, args)
     }
